@@ -251,7 +251,7 @@ def openFile (m : MFS) (p : Path) (flag perm : Nat) : MFS × Except Err Handle :
     if !creat then (m, .error .notExist)
     else
       let (gid, _) := inheritGid m parent
-      let mode := (perm &&& 0o777) &&& (0o7777 ^^^ m.umask)
+      let mode := (perm &&& 0o7777) &&& (0o7777 ^^^ m.umask)
       let k := parent ++ [name]
       let m' := (m.set k (some (.file "" { mode := mode, uid := 0, gid := gid, mtime := .fresh }))).touchDir parent
       (m', .ok { key := k, name := p, isDir := false, flag := flag })
